@@ -48,7 +48,31 @@ fn summarize<E: BigElem>(op: &str, shape: &str, s: &[E], bytes: usize) {
     ev!("\"ev\":\"big\",\"op\":\"{}\",\"shape\":\"{}\",\"n\":{},\"bytes\":{},\"first\":{},\"mid\":{},\"last\":{},\"sum\":{}", op, shape, n, bytes, first, mid, last, sum);
 }
 
+/// consumers of a large boxed array: only a checksum comes out (event `bigfold`)
+fn consume<E: BigElem, N: ArrayLength>(op: &str, shape: &str) {
+    let b = Box::<GenericArray<E, N>>::generate(|i| E::of((i % 1000) as u64));
+    let n = b.len();
+    let sum: u64 = match op {
+        "boxed_fold" => b.fold(0u64, |a, x| a.wrapping_add(x.probe())),
+        "boxed_into_iter" => b.into_iter().fold(0u64, |a, x| a.wrapping_add(x.probe())),
+        _ => panic!("HARNESS: big consumer {}", op),
+    } % 1_000_003;
+    ev!("\"ev\":\"bigfold\",\"op\":\"{}\",\"shape\":\"{}\",\"n\":{},\"sum\":{}", op, shape, n, sum);
+}
+
+/// box_arr! with a list of 32 elements of 16 KiB each (512 KiB of operands on a 256 KiB stack)
+fn list32(op: &str, shape: &str) {
+    // (operands are named constants: what a caller's own operand expressions put on the stack is not the crate's doing)
+    macro_rules! kdef { ($($n:ident = $i:literal),*) => { $(const $n: Big16k = Big16k([$i; 2048]);)* }; }
+    kdef!(K0 = 0, K1 = 1, K2 = 2, K3 = 3, K4 = 4, K5 = 5, K6 = 6, K7 = 7, K8 = 8, K9 = 9, K10 = 10, K11 = 11, K12 = 12, K13 = 13, K14 = 14, K15 = 15, K16 = 16, K17 = 17, K18 = 18, K19 = 19, K20 = 20, K21 = 21, K22 = 22, K23 = 23, K24 = 24, K25 = 25, K26 = 26, K27 = 27, K28 = 28, K29 = 29, K30 = 30, K31 = 31);
+    let b: Box<GenericArray<Big16k, U32>> = box_arr![K0, K1, K2, K3, K4, K5, K6, K7, K8, K9, K10, K11, K12, K13, K14, K15, K16, K17, K18, K19, K20, K21, K22, K23, K24, K25, K26, K27, K28, K29, K30, K31];
+    summarize(op, shape, b.as_slice(), std::mem::size_of_val(&*b));
+}
+
 fn build<E: BigElem, N: ArrayLength>(op: &str, shape: &str) {
+    if op == "boxed_fold" || op == "boxed_into_iter" {
+        return consume::<E, N>(op, shape);
+    }
     let n = N::USIZE as u64;
     let b: Box<GenericArray<E, N>> = match op {
         "default_boxed" => GenericArray::<E, N>::default_boxed(),
@@ -82,6 +106,7 @@ pub fn run_case(scn: &J) {
             "1m_u64" => build::<u64, U1048576>(&op, &shape),
             "256x16k" => build::<Big16k, U256>(&op, &shape),
             "64x16k" => build::<Big16k, U64>(&op, &shape),
+            "32x16k" if op == "box_arr_list" => list32(&op, &shape),
             "32x16k" => build::<Big16k, U32>(&op, &shape),
             _ => panic!("HARNESS: big shape {}", shape),
         })
